@@ -379,6 +379,9 @@ def replay_lifecycle(failure):
         def emit_stop(self):
             events.append('ABORT')
 
+        def emit_complete(self):
+            events.append('COMPLETE')
+
         def start_lineage_heart_beat(self):
             events.append('hb_start')
 
@@ -412,6 +415,8 @@ def replay_lifecycle(failure):
             def destroy():
                 state['mq_destroyed'] += 1
                 orig()
+                if any(p_ and p_[0] == 'raise' for p_ in plan('mq.destroy')):
+                    raise RuntimeError('mq.destroy failed')
             self.mq.destroy = destroy
             state['mq'] = self.mq
             if p and p[0][0] == 'raise':
@@ -457,8 +462,12 @@ def replay_lifecycle(failure):
     if 'torn_down' in ob:
         confirmed = state['mq_created'] and state['mq_destroyed'] != 1
     elif 'terminal_once' in ob or 'terminal_kind' in ob:
-        terms = [e for e in events if e == 'ABORT'] + (['COMPLETE(owed by the heartbeat thread)'] if 'hb_start' in events and 'hb_stop' in events else [])
-        confirmed = len(terms) != 1 or (terms[0] == 'ABORT') == (res == 'returned')
+        terms = [e for e in events if e in ('ABORT', 'COMPLETE')] + (['COMPLETE(owed by the heartbeat thread)'] if 'hb_start' in events and 'hb_stop' in events else [])
+        if 'terminal_kind' in ob:       # the named kind is emitted by the main thread although the run ended the other way
+            kind = 'ABORT' if ': ABORT from' in ob else 'COMPLETE'
+            confirmed = (kind in events or (kind == 'COMPLETE' and '_heartbeat_loop' in ob and len(terms) > len([e for e in events if e in ('ABORT', 'COMPLETE')]))) and ((kind == 'COMPLETE') != (res == 'returned'))
+        else:
+            confirmed = len(terms) != 1 or (terms[0] == 'ABORT') == (res == 'returned')
         obs['terminal_events'] = terms
     elif 'announce' in ob and '(' in ob:
         kind = ob.rsplit('(', 1)[1].rstrip(')')
